@@ -42,7 +42,7 @@ def layout_oracle(run, corr, deep):
     out = vf.run_lines(T.HARNESS, reqs)
     n = 0
     for (k, m, l), a in zip(msgs, out):
-        if k == "rx" and m.burst is not None and 0x80 in bytes(m.burst):
+        if not c01.in_quantifier(k, m):
             continue
         want = T.layout_tx(m, l) if k == "tx" else T.layout_rx(m, l)
         n += 1
@@ -107,7 +107,8 @@ def reused_parser_oracle(run, corr, deep):
     (trxcon's and fake_trx's receive paths keep parsing datagram after datagram): every field the header version transports,
     and no burst where the octets carry none"""
     msgs = c01.messages(run, deep)
-    pool = {"tx": [(m, l) for k, m, l in msgs if k == "tx"], "rx": [(m, l) for k, m, l in msgs if k == "rx"]}
+    pool = {"tx": [(m, l) for k, m, l in msgs if k == "tx" and c01.in_quantifier(k, m)],
+            "rx": [(m, l) for k, m, l in msgs if k == "rx" and c01.in_quantifier(k, m)]}
     reqs, meta = [], []
     for k in ("tx", "rx"):
         if len(pool[k]) < 2:
